@@ -121,6 +121,17 @@ func (c *Ctx) loadFindings() {
 	}
 }
 
+// outDir: where evidence and replays go. /verif, unless a development run against another checkout (VERIF_REPO) redirects them
+// with VERIF_OUT so that the committed evidence only ever comes from runs against /repo.
+func outDir() string {
+	if os.Getenv("VERIF_REPO") != "" {
+		if d := os.Getenv("VERIF_OUT"); d != "" {
+			return d
+		}
+	}
+	return VerifDir
+}
+
 // BuildWorker builds cmd/vworker from /repo's working tree with -tags verif (and -race if asked).
 func (c *Ctx) BuildWorker(race bool) string {
 	c.mu.Lock()
@@ -133,6 +144,20 @@ func (c *Ctx) BuildWorker(race bool) string {
 	if race {
 		out += "-race"
 		args = []string{"build", "-tags", "verif", "-race", "-o", out}
+	}
+	if alt := os.Getenv("VERIF_REPO"); alt != "" {
+		// development aid (never set by a registered command): build the worker against another checkout of the library, e.g. a
+		// scratch worktree holding a seeded change, so that /repo stays untouched
+		mod, err := os.ReadFile(filepath.Join(VerifDir, "harness", "go.mod"))
+		if err == nil {
+			mf := filepath.Join(c.Scratch, "alt.mod")
+			_ = os.WriteFile(mf, []byte(strings.Replace(string(mod), "=> /repo", "=> "+alt, 1)), 0o644)
+			if sum, err := os.ReadFile(filepath.Join(VerifDir, "harness", "go.sum")); err == nil {
+				_ = os.WriteFile(filepath.Join(c.Scratch, "alt.sum"), sum, 0o644)
+			}
+			args = append(args, "-modfile="+mf)
+			fmt.Printf("NOTE: worker built from %s instead of /repo (VERIF_REPO)\n", alt)
+		}
 	}
 	args = append(args, "./cmd/vworker")
 	cmd := exec.Command("go", args...)
@@ -282,7 +307,7 @@ func (c *Ctx) Violate(sig, what string, rp *Replay) {
 		c.violOrder = append(c.violOrder, sig)
 	}
 	c.replayN++
-	dir := filepath.Join(VerifDir, "replays", c.ID)
+	dir := filepath.Join(outDir(), "replays", c.ID)
 	_ = os.MkdirAll(dir, 0o755)
 	path := filepath.Join(dir, fmt.Sprintf("%s-seed%d-%03d.json", c.Tier, c.Seed, c.replayN))
 	if rp == nil {
@@ -383,9 +408,9 @@ func (c *Ctx) Finish() {
 	evals, distinct := c.evals, len(c.distinct)
 	c.mu.Unlock()
 
-	_ = os.MkdirAll(filepath.Join(VerifDir, "evidence"), 0o755)
+	_ = os.MkdirAll(filepath.Join(outDir(), "evidence"), 0o755)
 	b, _ := json.MarshalIndent(ev, "", " ")
-	_ = os.WriteFile(filepath.Join(VerifDir, "evidence", c.ID+".json"), append(b, '\n'), 0o644)
+	_ = os.WriteFile(filepath.Join(outDir(), "evidence", c.ID+".json"), append(b, '\n'), 0o644)
 	c.Cleanup()
 
 	keys := make([]string, 0, len(c.extra))
